@@ -185,6 +185,10 @@ def cls3 (v : Val) (t : Ty) : Bool := !isNoneTy t && !(isStr v && isSeqOrMap t)
 
 abbrev Vals := List (Except Err Val)
 
+/-- `sort_subtypes_for_union(ts, v, append=False)`: the order in which the loop below visits the members -/
+def sortedMembers {α : Type} (v : Val) (ty : α → Ty) (ts : List α) : List α :=
+  ts.filter (fun x => cls1 v (ty x)) ++ ts.filter (fun x => cls2 v (ty x)) ++ ts.filter (fun x => cls3 v (ty x))
+
 mutual
 /-- `adapt_typehints(val, typehint, serialize=ser, orig_val=orig)` -/
 def adapt (O : Oracle) (ser : Bool) (orig : Option String) : Ty → Val → Except Err Val
